@@ -747,6 +747,12 @@ def _analyse_exec(run: Any, ea: ExecAnalysis, retire_probe: bool, aborted: bool,
                 own_threads = [n for n in dispatched if n in attrs and attrs[n]["res"] == "thread" and n not in exit_seq]
                 V.append(viol("loop_blocked_candidate", f"loop thread parked in blocking {e[2]}", op=opkey, tok=tok, seq=seq,
                               own_threads=own_threads, part=e[3]))
+        elif k == "start":
+            # a pooled node that the pool itself held back (all workers busy) and that starts only after the scheduler has seen
+            # a failure: nothing may be started after that point, whoever delayed it
+            if len(e) > 3 and e[3] and failure_observed_at is not None and e[2] in attrs:
+                V.append(viol("dispatch_after_failure", f"{e[2]} was queued in the worker pool and started after the scheduler observed a failure",
+                              op=opkey, tok=tok, seq=seq, tags=["queued"]))
         elif k == "fault":
             # ground truth: the node function raised (whatever the layers above it make of the exception)
             if e[2] is not None:
